@@ -114,6 +114,58 @@ func c02AddrE(env byte, idx int, id string) string {
 
 func c02Addr(idx int, id string) string { return c02AddrE('p', idx, id) }
 
+// c02AddrG: the address of c02AddrE made apad bytes longer (size dimension, token G<a>,<e>): "+pppp…" is appended to
+// the local part (inside the quotes of a quoted one) — sub-addressing, a legitimate spelling.
+func c02AddrG(env byte, idx int, id string, apad int) string {
+	a := c02AddrE(env, idx, id)
+	if apad <= 0 {
+		return a
+	}
+	at := strings.LastIndexByte(a, '@')
+	local, dom := a[:at], a[at:]
+	pad := "+" + strings.Repeat("p", apad-1)
+	if strings.HasSuffix(local, "\"") {
+		return local[:len(local)-1] + pad + "\"" + dom
+	}
+	return local + pad + dom
+}
+
+// c02Grow is the size dimension of a case: every recipient address is apad bytes longer, every error text the
+// scripted target returns (and every error text of a hand-made meta-data file) epad bytes longer.
+type c02Grow struct{ apad, epad int }
+
+func (g c02Grow) token() string {
+	if g.apad == 0 && g.epad == 0 {
+		return ""
+	}
+	return fmt.Sprintf("G%d,%d", g.apad, g.epad)
+}
+
+func c02ParseGrow(t string) (c02Grow, bool) {
+	if len(t) < 4 || t[0] != 'G' {
+		return c02Grow{}, false
+	}
+	p := strings.Split(t[1:], ",")
+	if len(p) != 2 {
+		return c02Grow{}, false
+	}
+	a, e1 := strconv.Atoi(p[0])
+	e, e2 := strconv.Atoi(p[1])
+	if e1 != nil || e2 != nil || a < 0 || e < 0 || a > 200 || e > 100000 {
+		return c02Grow{}, false
+	}
+	return c02Grow{a, e}, true
+}
+
+// c02ErrPad: what makes an error text epad bytes longer — the kind of multi-line explanation real servers send.
+func c02ErrPad(epad int) string {
+	if epad <= 0 {
+		return ""
+	}
+	const phrase = " the mailbox is temporarily unavailable, see https://postmaster.example/policy#greylisting for details;"
+	return strings.Repeat(phrase, epad/len(phrase)+1)[:epad]
+}
+
 // c02ParseAddr recognises every spelling c02AddrE produces (and the A-label form a failure report
 // without SMTPUTF8 would use for the internationalised domain).
 func c02ParseAddr(a string) (idx int, id string, ok bool) {
@@ -122,6 +174,14 @@ func c02ParseAddr(a string) (idx int, id string, ok bool) {
 		return 0, "", false
 	}
 	local, dom := a[:at], a[at+1:]
+	if plus := strings.IndexByte(local, '+'); plus >= 0 {
+		// padded address (c02AddrG)
+		quoted := strings.HasSuffix(local, "\"")
+		local = local[:plus]
+		if quoted {
+			local += "\""
+		}
+	}
 	switch {
 	case strings.HasPrefix(local, "\"r ") && strings.HasSuffix(local, "\"") && len(local) > 4:
 		local = local[3 : len(local)-1]
@@ -231,6 +291,7 @@ type c02Target struct {
 	expect   map[string]string
 	bad      map[string]bool // a delivery whose content differs from what was accepted
 	panics   int32
+	grow     c02Grow
 }
 
 type c02Delivery struct {
@@ -269,13 +330,31 @@ type c02Script struct {
 	commit  byte
 }
 
+// c02Rle / c02UnRle: a stage in which EVERY recipient has the same letter is spelled <letter>*<count> once there are
+// 16 or more of them (messages with thousands of recipients); every other script is spelled out.
+func c02Rle(s string) string {
+	if len(s) < 16 || strings.Trim(s, s[:1]) != "" {
+		return s
+	}
+	return s[:1] + "*" + strconv.Itoa(len(s))
+}
+
+func c02UnRle(s string) string {
+	if len(s) >= 3 && s[1] == '*' {
+		if n, err := strconv.Atoi(s[2:]); err == nil && n >= 0 && n <= 1000000 {
+			return strings.Repeat(s[:1], n)
+		}
+	}
+	return s
+}
+
 func c02ParseScript(t string) c02Script {
 	p := strings.Split(t, "/")
-	sc := c02Script{add: p[0], commit: 'o'}
+	sc := c02Script{add: c02UnRle(p[0]), commit: 'o'}
 	if len(p) >= 2 && len(p[1]) >= 1 {
 		sc.long = true
 		sc.partial = p[1][0] == 'n'
-		sc.body = p[1][1:]
+		sc.body = c02UnRle(p[1][1:])
 		if len(p) >= 3 && len(p[2]) >= 1 {
 			sc.commit = p[2][0]
 		}
@@ -302,16 +381,16 @@ func c02Canon(t string, nto int) string {
 		}
 	}
 	if !sc.long {
-		return string(add)
+		return c02Rle(string(add))
 	}
 	if !sc.partial {
-		return string(add) + "/a" + string(c02LetterAt(sc.body, 0)) + "/" + string(sc.commit)
+		return c02Rle(string(add)) + "/a" + string(c02LetterAt(sc.body, 0)) + "/" + string(sc.commit)
 	}
 	b := make([]byte, nacc)
 	for i := range b {
 		b[i] = c02LetterAt(sc.body, i)
 	}
-	return string(add) + "/n" + string(b) + "/" + string(sc.commit)
+	return c02Rle(string(add)) + "/n" + c02Rle(string(b)) + "/" + string(sc.commit)
 }
 
 // c02Effective is the CONTRACT of a delivery attempt, written down independently of Queue.deliver: per recipient of
@@ -351,14 +430,14 @@ func c02Effective(t string) string {
 	return string(res)
 }
 
-func c02Err(c byte, what string) error {
+func c02Err(c byte, what string, epad int) error {
 	switch c {
 	case 't':
-		return &exterrors.SMTPError{Code: 451, EnhancedCode: exterrors.EnhancedCode{4, 3, 0}, Message: what + ": try later"}
+		return &exterrors.SMTPError{Code: 451, EnhancedCode: exterrors.EnhancedCode{4, 3, 0}, Message: what + ": try later" + c02ErrPad(epad)}
 	case 'p':
-		return &exterrors.SMTPError{Code: 550, EnhancedCode: exterrors.EnhancedCode{5, 1, 1}, Message: what + ": refused"}
+		return &exterrors.SMTPError{Code: 550, EnhancedCode: exterrors.EnhancedCode{5, 1, 1}, Message: what + ": refused" + c02ErrPad(epad)}
 	case 'u':
-		return errors.New(what + ": unclassified failure")
+		return errors.New(what + ": unclassified failure" + c02ErrPad(epad))
 	}
 	return nil
 }
@@ -404,11 +483,11 @@ func (d *c02Delivery) AddRcpt(ctx context.Context, to string, _ smtp.RcptOptions
 	d.to = append(d.to, strconv.Itoa(idx))
 	switch c {
 	case 't':
-		return &exterrors.SMTPError{Code: 451, EnhancedCode: exterrors.EnhancedCode{4, 3, 0}, Message: "try later"}
+		return &exterrors.SMTPError{Code: 451, EnhancedCode: exterrors.EnhancedCode{4, 3, 0}, Message: "try later" + c02ErrPad(d.t.grow.epad)}
 	case 'p':
-		return &exterrors.SMTPError{Code: 550, EnhancedCode: exterrors.EnhancedCode{5, 1, 1}, Message: "no such user"}
+		return &exterrors.SMTPError{Code: 550, EnhancedCode: exterrors.EnhancedCode{5, 1, 1}, Message: "no such user" + c02ErrPad(d.t.grow.epad)}
 	case 'u':
-		return errors.New("unclassified failure")
+		return errors.New("unclassified failure" + c02ErrPad(d.t.grow.epad))
 	}
 	d.accepted = append(d.accepted, strconv.Itoa(idx))
 	d.addrs = append(d.addrs, to)
@@ -454,7 +533,7 @@ func (d *c02Delivery) Body(ctx context.Context, header textproto.Header, body bu
 	if c == 'o' {
 		d.bodyOK = d.accepted
 	}
-	return c02Err(c, "body")
+	return c02Err(c, "body", d.t.grow.epad)
 }
 
 func (d *c02PartialDelivery) BodyNonAtomic(ctx context.Context, sc module.StatusCollector, header textproto.Header, body buffer.Buffer) {
@@ -465,7 +544,7 @@ func (d *c02PartialDelivery) BodyNonAtomic(ctx context.Context, sc module.Status
 		if c == 'o' {
 			d.bodyOK = append(d.bodyOK, d.accepted[k])
 		}
-		sc.SetStatus(addr, c02Err(c, "body"))
+		sc.SetStatus(addr, c02Err(c, "body", d.t.grow.epad))
 	}
 }
 
@@ -476,7 +555,7 @@ func (d *c02Delivery) Abort(ctx context.Context) error {
 
 // Commit: only now the message is effective at the target; when the script makes it fail nobody got it.
 func (d *c02Delivery) Commit(ctx context.Context) error {
-	if err := c02Err(d.script.commit, "commit"); err != nil {
+	if err := c02Err(d.script.commit, "commit", d.t.grow.epad); err != nil {
 		d.t.w.Event(d.id, "@CF")
 		return err
 	}
@@ -506,7 +585,18 @@ func (d *c02BounceDelivery) Body(ctx context.Context, header textproto.Header, b
 	}
 	defer r.Close()
 	blob, _ := io.ReadAll(r)
+	// unfold the header fields of the report first (RFC 5322 2.2.3: a CRLF in front of white space is removed; a long
+	// recipient address makes textproto fold the Final-Recipient field)
+	var logical []string
 	for _, line := range strings.Split(string(blob), "\n") {
+		line = strings.TrimRight(line, "\r")
+		if n := len(logical); n > 0 && logical[n-1] != "" && (strings.HasPrefix(line, " ") || strings.HasPrefix(line, "\t")) {
+			logical[n-1] += line
+			continue
+		}
+		logical = append(logical, line)
+	}
+	for _, line := range logical {
 		line = strings.TrimSpace(line)
 		if strings.HasPrefix(strings.ToLower(line), "final-recipient:") {
 			v := line[len("final-recipient:"):]
@@ -596,7 +686,8 @@ type c02SegIn struct {
 	recovery bool
 	extDel   string // "<id>:<kind>": delete that file behind the queue's back between the start-up scan and the first dispatch
 	faults   []c02Fault
-	loc      int // index into c02DirNames: the name of the spool directory (0 = a plain one)
+	loc      int     // index into c02DirNames: the name of the spool directory (0 = a plain one)
+	grow     c02Grow // size dimension: longer addresses (of the transactions of this run) and error texts (of the target)
 }
 
 // c02DirNames: names of the spool directory (token `L<k>` of an op line; 0 = the plain numbered directory the
@@ -758,6 +849,9 @@ var c02StartErrs int64
 var c02Violations int64
 
 func c02V(out *vh.Out, sig, op, detail string) {
+	if len(detail) > 1500 {
+		detail = detail[:1500] + " … (" + strconv.Itoa(len(detail)) + " bytes)"
+	}
 	atomic.AddInt64(&c02Violations, 1)
 	out.Violation(sig, op, detail)
 }
@@ -784,7 +878,7 @@ func c02RunSegment(in c02SegIn) c02SegOut {
 		w.InjectFault(f.id, f.call, f.k, f.errno)
 	}
 
-	tgt := &c02Target{w: w, attempt: map[string]int{}, outcomes: in.outcomes, gates: map[string]chan struct{}{}, expect: in.expect, bad: map[string]bool{}}
+	tgt := &c02Target{w: w, attempt: map[string]int{}, outcomes: in.outcomes, gates: map[string]chan struct{}{}, expect: in.expect, bad: map[string]bool{}, grow: in.grow}
 	for _, a := range in.accepts {
 		tgt.gates[a.id] = make(chan struct{})
 	}
@@ -855,6 +949,7 @@ func c02RunSegment(in c02SegIn) c02SegOut {
 
 	commits := 0
 	aborts := 0
+	var closed int32 // the queue was closed inside a transaction (fates k, K, j)
 	var cmu sync.Mutex
 	firstAttempt := map[string]chan struct{}{}
 	_ = firstAttempt
@@ -868,7 +963,7 @@ func c02RunSegment(in c02SegIn) c02SegOut {
 			panic(err)
 		}
 		for i := 1; i <= a.n; i++ {
-			if err := d.AddRcpt(ctx, c02AddrE(a.envL(), i, a.id), smtp.RcptOptions{}); err != nil {
+			if err := d.AddRcpt(ctx, c02AddrG(a.envL(), i, a.id, in.grow.apad), smtp.RcptOptions{}); err != nil {
 				panic(err)
 			}
 		}
@@ -877,30 +972,56 @@ func c02RunSegment(in c02SegIn) c02SegOut {
 			panic(fmt.Sprintf("c02: no header of %d bytes", a.hl))
 		}
 		w.Event(a.id, "@A:"+c02AToken(a.n, a.hl, a.bl, a.envL()))
+		// Close racing with the open transaction: the queue is stopped (time wheel stopped, running deliveries
+		// waited for) while the transaction is still open — before Body ('K') or between Body and the end of the
+		// transaction ('k' Commit, 'j' Abort).  The process stays up: the transaction ends on the stopped queue.
+		closeNow := func() {
+			w.Event(a.id, "@Q")
+			q.Close()
+			atomic.StoreInt32(&closed, 1)
+		}
+		if a.fate == 'K' {
+			closeNow()
+		}
 		if err := d.Body(ctx, hdr, buffer.MemoryBuffer{Slice: c02Body(a.id, a.bl)}); err != nil {
 			panic(err)
 		}
+		if a.fate == 'k' || a.fate == 'j' {
+			closeNow()
+		}
 		switch a.fate {
-		case 'c':
-			cmu.Lock()
-			commits++
-			cmu.Unlock()
-			if err := d.Commit(ctx); err != nil {
-				panic(err)
+		case 'c', 'k', 'K':
+			// Acceptance = Commit returned nil.  When it returns an error the sender is told that the
+			// transaction FAILED ("Commit closes the delivery even if it fails": no caller calls Abort after
+			// it): event NACK — such a message must never be delivered, neither now nor after a restart.
+			err := d.Commit(ctx)
+			if err != nil {
+				w.Event(a.id, "NACK")
+			} else {
+				w.Event(a.id, "ACC")
+				if a.fate == 'c' {
+					// a Commit acknowledged by a stopped queue starts no delivery in this run of the process
+					cmu.Lock()
+					commits++
+					cmu.Unlock()
+				}
 			}
-			w.Event(a.id, "ACC")
 			if in.stagger != 3 {
 				close(tgt.gates[a.id])
 			}
-		case 'b':
+		case 'b', 'j':
 			w.Event(a.id, "@B")
 			if err := d.Abort(ctx); err != nil {
 				panic(err)
 			}
 			w.Event(a.id, "ABT")
-			cmu.Lock()
-			aborts++
-			cmu.Unlock()
+			// (the queue's line "removed message from disk" of an Abort stands for no delivery; an Abort that
+			// removes nothing writes no such line — never on the tree the harness was written for)
+			if c02DidOp(w.Log(a.id), "rmM") {
+				cmu.Lock()
+				aborts++
+				cmu.Unlock()
+			}
 		}
 	}
 	if hung {
@@ -929,7 +1050,7 @@ func c02RunSegment(in c02SegIn) c02SegOut {
 	awg.Wait()
 	if in.stagger == 3 {
 		for _, a := range in.accepts {
-			if a.fate == 'c' {
+			if a.fate == 'c' || a.fate == 'k' || a.fate == 'K' {
 				close(tgt.gates[a.id])
 			}
 		}
@@ -978,7 +1099,7 @@ func c02RunSegment(in c02SegIn) c02SegOut {
 		}
 		time.Sleep(100 * time.Microsecond)
 	}
-	if !hung {
+	if !hung && atomic.LoadInt32(&closed) == 0 {
 		q.Close()
 	}
 
@@ -1149,6 +1270,7 @@ func c02Tokens(lg []*vos.Entry, c c02Cut, recovery bool) []string {
 	scanSeen := !recovery
 	pendingD := false
 	faultNext := ""
+	stoppedQ := false // Queue.Close came while the transaction was open
 	for _, it := range c02Items(lg) {
 		if it.at >= c.pos {
 			break
@@ -1189,9 +1311,21 @@ func c02Tokens(lg []*vos.Entry, c c02Cut, recovery bool) []string {
 			case strings.HasPrefix(it.text, "@A:"):
 				flush()
 				toks = append(toks, "A"+it.text[3:])
+			case it.text == "@Q":
+				flush()
+				toks = append(toks, "Q")
+				stoppedQ = true
 			case it.text == "ACC":
 				flush()
-				toks = append(toks, "C")
+				if stoppedQ {
+					toks = append(toks, "K") // Commit on the stopped queue returned nil
+				} else {
+					toks = append(toks, "C")
+				}
+			case it.text == "NACK":
+				// Commit returned an error: no step of the model (the driver answers bad-token: T2 diverges)
+				flush()
+				toks = append(toks, "N")
 			case it.text == "@B":
 				flush()
 				toks = append(toks, "B")
@@ -1455,6 +1589,8 @@ type c02Explorer struct {
 	par      int // max_parallelism of the recovery runs
 	loc      int // name of the spool directory of every run (index into c02DirNames)
 	sample   int // >0: percentage of the crash points that are explored (scenarios with many messages)
+	grow     c02Grow
+	big      bool // a message with thousands of recipients: the stops between two attempts are always explored, a sample of the others
 }
 
 // c02RecCtx: one recovery run of the explorer, as far as the multi-message reporting needs it.
@@ -1636,7 +1772,12 @@ func (x *c02Explorer) vectors(seg c02SegOut, depth int) []c02Vector {
 		lg := seg.logs[id]
 		for _, c := range c02Cuts(lg, true) {
 			if x.sample > 0 && !x.rng.Chance(x.sample) {
-				continue
+				// big messages: the process always stops (also) between two attempts — before the next update of the
+				// meta-data begins, before the removal begins, when the run is over
+				between := c.extra == 0 && (c.pos == len(lg) || lg[c.pos].Text == "cN" || lg[c.pos].Text == "rmH")
+				if !x.big || !between {
+					continue
+				}
 			}
 			seq := int(^uint(0) >> 1)
 			if c.pos < len(lg) {
@@ -1801,7 +1942,7 @@ func (x *c02Explorer) explore(seg c02SegOut, recovery bool, hist map[string]c02H
 			key := fmt.Sprintf("%d|%s|%s", x.maxTries, skey, okey)
 			rec, ok := x.cache[key]
 			if !ok {
-				rec = c02RunRecovery(c02SegIn{maxTries: x.maxTries, files: files, outcomes: outcomes, expect: x.expect, recovery: true, par: x.par, loc: x.loc})
+				rec = c02RunRecovery(c02SegIn{maxTries: x.maxTries, files: files, outcomes: outcomes, expect: x.expect, recovery: true, par: x.par, loc: x.loc, grow: x.grow})
 				x.cache[key] = rec
 				x.ctxs[key] = &c02RecCtx{perID: perID, outcomes: outcomes, deliverable: ndeliverable}
 				if ndeliverable > x.parOr4() {
@@ -1847,7 +1988,7 @@ func (x *c02Explorer) judge(id string, h c02Hist, crashFiles map[string][]byte, 
 	op := fmt.Sprintf("C02 run %d %d %s", x.maxTries, hp, strings.Join(toks, " "))
 	// the same history under another name of the spool directory is judged by the monitor again (the model's
 	// answer does not depend on the name: one correspondence line per history)
-	if _, dup := x.seen.LoadOrStore(op+"|"+c02LocToken(x.loc), true); dup {
+	if _, dup := x.seen.LoadOrStore(op+"|"+c02LocToken(x.loc)+x.grow.token(), true); dup {
 		x.out.Stat("lines.duplicate")
 		return
 	}
@@ -1859,13 +2000,16 @@ func (x *c02Explorer) judge(id string, h c02Hist, crashFiles map[string][]byte, 
 	// The model's answer does not depend on max_parallelism (the ids are independent), so the
 	// correspondence line does not carry it; the line named in a violation does (token S<par> in front,
 	// read by the replay only) whenever the recovery runs were not made with the default of 4.
-	if x.parOr4() != 4 || x.loc > 0 {
+	if x.parOr4() != 4 || x.loc > 0 || x.grow.token() != "" {
 		pre := ""
 		if x.parOr4() != 4 {
 			pre = fmt.Sprintf("S%d ", x.parOr4())
 		}
 		if x.loc > 0 {
 			pre += c02LocToken(x.loc) + " "
+		}
+		if g := x.grow.token(); g != "" {
+			pre += g + " "
 		}
 		op = fmt.Sprintf("C02 run %d %d %s%s", x.maxTries, hp, pre, strings.Join(toks, " "))
 	}
@@ -1893,6 +2037,13 @@ func (x *c02Explorer) judge(id string, h c02Hist, crashFiles map[string][]byte, 
 		return false
 	}
 	accepted, aborted := has(h.pre, "ACC"), has(h.pre, "ABT")
+	nacked := has(h.pre, "NACK") // Commit returned an error: the sender was told that the transaction failed
+	stoppedQ := false
+	for _, t := range h.toks {
+		if t == "Q" {
+			stoppedQ = true
+		}
+	}
 	panicked := has(h.pre, "PANIC") || has(post, "PANIC")
 	lists := func(evs []string, prefix string) [][]string {
 		var out [][]string
@@ -1941,9 +2092,18 @@ func (x *c02Explorer) judge(id string, h c02Hist, crashFiles map[string][]byte, 
 	if hasN {
 		x.out.Stat("crash-state.with-meta.new")
 	}
+	if stoppedQ {
+		x.out.Stat("history.transaction-ended-on-a-stopped-queue")
+	}
 	switch {
+	case aborted && stoppedQ:
+		x.out.Stat("history.aborted.on-a-stopped-queue")
 	case aborted:
 		x.out.Stat("history.aborted")
+	case nacked:
+		x.out.Stat("history.commit-refused")
+	case accepted && stoppedQ:
+		x.out.Stat("history.accepted.by-a-stopped-queue")
 	case accepted:
 		x.out.Stat("history.accepted")
 	default:
@@ -1968,6 +2128,12 @@ func (x *c02Explorer) judge(id string, h c02Hist, crashFiles map[string][]byte, 
 	if null {
 		x.out.Stat("history.null-reverse-path")
 	}
+	if x.big {
+		x.out.Stat("big.run.lines")
+		if hasM && hasH && hasB {
+			x.out.Stat("big.run.meta-bytes-at-restart." + c02SizeClass(len(crashFiles["M"])))
+		}
+	}
 	if data, ok := crashFiles["B"]; ok && hasM && hasH && len(data) < 2 {
 		x.out.Stat(fmt.Sprintf("crash-state.complete.body-bytes.%d", len(data)))
 	}
@@ -1988,7 +2154,7 @@ func (x *c02Explorer) judge(id string, h c02Hist, crashFiles map[string][]byte, 
 	}
 	accountedPost := map[string]bool{}
 	lostReported := false
-	if storedOK && !has(post, "PANIC") {
+	if storedOK && !has(post, "PANIC") && !nacked {
 		x.out.Stat("monitor.stored-message-accounted-for.checked")
 		hdrParses := c02HeaderParses(crashFiles["H"])
 		donePre := map[string]bool{}
@@ -2032,6 +2198,14 @@ func (x *c02Explorer) judge(id string, h c02Hist, crashFiles map[string][]byte, 
 	}
 	if aborted && len(attPost) > 0 {
 		c02V(x.out, "C02/aborted-delivered", op, "a message whose transaction was aborted is attempted after restart; "+detail())
+	}
+	// acceptance = Commit returned nil: a transaction whose Commit returned an error was NOT acknowledged (the sender
+	// is told it failed and sends the message again) — it is never delivered, in particular not after a restart
+	if accepted || aborted || nacked {
+		x.out.Stat("monitor.only-acknowledged-transactions-delivered.checked")
+	}
+	if nacked && len(attPost) > 0 {
+		c02V(x.out, "C02/unacknowledged-delivered", op, "a message whose transaction was not acknowledged (Commit returned an error to the sender) is attempted after restart: the entry written by Body was left in the spool; "+detail())
 	}
 	// recipients stored as pending in the metadata found at restart
 	stored := map[string]bool{}
@@ -2086,6 +2260,20 @@ func (x *c02Explorer) judge(id string, h c02Hist, crashFiles map[string][]byte, 
 	}
 }
 
+func c02SizeClass(n int) string {
+	switch {
+	case n < 100<<10:
+		return "under-100KiB"
+	case n < 256<<10:
+		return "100-256KiB"
+	case n < 1<<20:
+		return "256KiB-1MiB"
+	case n < 4<<20:
+		return "1-4MiB"
+	}
+	return "over-4MiB"
+}
+
 func keepClass(k string) string {
 	switch k {
 	case "a":
@@ -2113,6 +2301,8 @@ type c02Scenario struct {
 	stagger  int
 	par      int // max_parallelism of the recovery runs (0: 4); the first run always has room for every message
 	loc      int // name of the spool directory (index into c02DirNames)
+	grow     c02Grow
+	big      bool
 }
 
 func c02GenOutcomes(r *vh.Rng, n int, attempts int, faulty int, allowPanic bool) []string {
@@ -2231,10 +2421,118 @@ func c02GenScenario(r *vh.Rng) c02Scenario {
 		default:
 			a.env = "iqmi"[x-12]
 		}
+		// Close racing with the open transaction (single-message scenarios, a sixth of them): the queue is stopped
+		// before Body or between Body and Commit / Abort; the transaction ends on the stopped queue
+		if nm == 1 && r.Chance(17) {
+			a.fate = "kkKj"[r.Intn(4)]
+		}
 		sc.accepts = append(sc.accepts, a)
 		sc.out0[a.id] = c02GenOutcomes(r, a.n, sc.maxTries, []int{0, 30, 60, 90}[r.Intn(4)], true)
 	}
 	return sc
+}
+
+// c02BigSizes: the size dimension — recipients, bytes added to every address, bytes added to every error text.
+// The stored meta-data (To, TriesCount, TemporaryFailedRcpts, RcptErrs with the last error text: 200-250 bytes per
+// deferred recipient without any padding) has 100 KiB … several MiB; maddy accepts up to 20000 recipients per message.
+var c02BigSizes = [][3]int{{1500, 0, 0}, {3000, 0, 0}, {600, 180, 0}, {400, 0, 1500}, {2500, 30, 200}, {450, 0, 0}, {5000, 0, 40}, {1200, 60, 600}}
+
+var c02BigSizesThorough = [][3]int{{9000, 0, 0}, {20000, 0, 0}, {4000, 100, 500}, {300, 0, 20000}}
+
+// c02BigSizesMiB: records of more than 1 MiB after a deferral; c02BigSizesSeveral: of several MiB (hand-made only).
+var c02BigSizesMiB = [][3]int{{5000, 0, 40}, {2500, 30, 200}, {1200, 60, 600}, {4000, 20, 300}}
+
+var c02BigSizesSeveral = [][3]int{{8000, 20, 300}, {5000, 40, 500}, {3000, 100, 900}}
+
+// c02PickBig: class 0 any size, 1 more than 1 MiB, 2 several MiB (every run has one of each of the latter two).
+func c02PickBig(r *vh.Rng, class int) [3]int {
+	switch {
+	case class == 1:
+		return c02BigSizesMiB[r.Intn(len(c02BigSizesMiB))]
+	case class == 2:
+		return c02BigSizesSeveral[r.Intn(len(c02BigSizesSeveral))]
+	case vh.Thorough() && r.Chance(35):
+		return c02BigSizesThorough[r.Intn(len(c02BigSizesThorough))]
+	}
+	return c02BigSizes[r.Intn(len(c02BigSizes))]
+}
+
+// c02BigLetters: the script of one attempt for n recipients: everybody deferred (mostly), or a mix.
+func c02BigLetters(r *vh.Rng, n int, first bool) string {
+	if first && r.Chance(60) {
+		return strings.Repeat(r.Pick("t", "t", "u"), n)
+	}
+	b := make([]byte, n)
+	alphabet := "ootpu"
+	if first {
+		alphabet = "tttttttuuo" // (nearly) everybody is deferred by the first attempt
+	}
+	for i := range b {
+		b[i] = alphabet[r.Intn(len(alphabet))]
+	}
+	return string(b)
+}
+
+// c02GenBigScenario: ONE accepted message with hundreds / thousands of recipients, long addresses and / or long
+// error texts; the first attempt defers (nearly) all of them, so the meta-data the queue writes is big; the
+// process is stopped between the attempts (explorer: c02Explorer.big) and started again.
+func c02GenBigScenario(r *vh.Rng, class int) c02Scenario {
+	sz := c02PickBig(r, class)
+	if sz[0] > 9000 {
+		sz[0] = 9000 // the largest records are hand-made (one line each); a real run is crashed a dozen times
+	}
+	sc := c02Scenario{maxTries: 2 + r.Intn(2), out0: map[string][]string{}, big: true, grow: c02Grow{sz[1], sz[2]}}
+	sc.par = 4
+	sc.loc = 0
+	if r.Chance(25) {
+		sc.loc = c02GenLoc(r)
+	}
+	hls := c02HeaderLens()
+	a := c02Accept{id: "a1", n: sz[0], hl: hls[2], bl: []int{7, 0, 300}[r.Intn(3)], fate: 'c', env: "pppnim"[r.Intn(6)]}
+	sc.accepts = []c02Accept{a}
+	for t := 0; t < sc.maxTries; t++ {
+		sc.out0[a.id] = append(sc.out0[a.id], c02BigLetters(r, a.n, t == 0)+c02GenStages(r, a.n, 0))
+	}
+	return sc
+}
+
+// c02GenBigSyn: a hand-made directory whose meta-data file is big (written by the queue's own encoder): n pending
+// recipients with stored counter c (c > 0: the after-a-deferral image with one stored error per recipient).
+func c02GenBigSyn(r *vh.Rng, class int) string {
+	sz := c02PickBig(r, class)
+	maxTries := 2 + r.Intn(2)
+	c := []int{1, 1, 1, 2, 0}[r.Intn(5)]
+	if c >= maxTries || (class > 0 && c == 0) {
+		c = maxTries - 1
+	}
+	if c == 0 && sz[0] < 3000 {
+		sz[0] *= 4 // the acceptance-time image has no stored error: 40-50 bytes per recipient
+	}
+	hls := c02HeaderLens()
+	m := fmt.Sprintf("M#%d;%d", sz[0], c)
+	if r.Chance(40) {
+		m += ";" + string("nnziqm"[r.Intn(6)])
+	}
+	line := fmt.Sprintf("C02 syn %d 1 H%d B%d %s N%s X-", maxTries, hls[2], []int{7, 0, 2}[r.Intn(3)], m, r.Pick("-", "-", "+"))
+	if r.Chance(25) {
+		if l := c02GenLoc(r); l > 0 {
+			line += " " + c02LocToken(l)
+		}
+	}
+	if g := (c02Grow{sz[1], sz[2]}).token(); g != "" {
+		line += " " + g
+	}
+	script := func() {
+		for a := 0; a < maxTries+1; a++ {
+			line += " O" + c02Canon(c02BigLetters(r, sz[0], a == 0)+c02GenStages(r, sz[0], 0), sz[0])
+		}
+	}
+	script()
+	if r.Chance(40) {
+		line += " Xa R"
+		script()
+	}
+	return line
 }
 
 func c02RunScenario(out *vh.Out, sc c02Scenario, r *vh.Rng, seen *sync.Map, only map[int]c02Only, recOuts [][]map[string][]string, maxDepth int) {
@@ -2247,7 +2545,7 @@ func c02RunScenario(out *vh.Out, sc c02Scenario, r *vh.Rng, seen *sync.Map, only
 		norig[a.id] = a.n
 		envs[a.id] = a.envL()
 	}
-	seg0 := c02RunSegment(c02SegIn{maxTries: sc.maxTries, accepts: sc.accepts, outcomes: sc.out0, expect: expect, stagger: sc.stagger, par: 8, loc: sc.loc})
+	seg0 := c02RunSegment(c02SegIn{maxTries: sc.maxTries, accepts: sc.accepts, outcomes: sc.out0, expect: expect, stagger: sc.stagger, par: 8, loc: sc.loc, grow: sc.grow})
 	if seg0.hung {
 		htoks := c02Tokens(seg0.logs[sc.accepts[0].id], c02Cut{pos: len(seg0.logs[sc.accepts[0].id])}, false)
 		if len(htoks) == 0 {
@@ -2260,12 +2558,20 @@ func c02RunScenario(out *vh.Out, sc c02Scenario, r *vh.Rng, seen *sync.Map, only
 				htoks = append(htoks, "B")
 			}
 		}
-		c02V(out, "C02/queue-hang", fmt.Sprintf("C02 run %d 1 %s", sc.maxTries, c02LocPrefix(sc.loc)+strings.Join(htoks, " ")),
+		c02V(out, "C02/queue-hang", fmt.Sprintf("C02 run %d 1 %s", sc.maxTries, c02LocPrefix(sc.loc)+strings.TrimLeft(sc.grow.token()+" ", " ")+strings.Join(htoks, " ")),
 			fmt.Sprintf("the queue stopped making progress (or refused to start) in a run without any crash (%d messages, max_parallelism 8, spool directory %q) while it still owed deliveries", len(sc.accepts), c02DirNames[sc.loc]))
 		return
 	}
 	x := &c02Explorer{out: out, maxTries: sc.maxTries, expect: expect, norig: norig, env: envs, outs: recOuts, maxDepth: maxDepth,
-		thorough: vh.Thorough(), rng: r, only: only, cache: map[string]c02SegOut{}, ctxs: map[string]*c02RecCtx{}, seen: seen, par: sc.par, loc: sc.loc}
+		thorough: vh.Thorough(), rng: r, only: only, cache: map[string]c02SegOut{}, ctxs: map[string]*c02RecCtx{}, seen: seen, par: sc.par, loc: sc.loc, grow: sc.grow, big: sc.big}
+	if sc.big && only == nil {
+		x.sample = 4
+		if vh.Thorough() {
+			x.sample = 10
+		}
+		out.Stat("big.run.scenarios")
+		out.Stat(fmt.Sprintf("big.run.recipients.%d.addr+%d.errtext+%d", sc.accepts[0].n, sc.grow.apad, sc.grow.epad))
+	}
 	if len(sc.accepts) >= 4 && only == nil {
 		// many messages: a sample of the crash points (each of them stops ALL the messages)
 		x.sample = 30
@@ -2295,6 +2601,16 @@ func c02RunScenario(out *vh.Out, sc c02Scenario, r *vh.Rng, seen *sync.Map, only
 		}
 		if seg0.bad[a.id] {
 			c02V(out, "C02/content-differs-without-crash", op, "delivered content differs from the accepted one")
+		}
+		nack := false
+		for _, e := range lg {
+			if e.Kind == 'e' && e.Text == "NACK" {
+				nack = true
+			}
+			if e.Kind == 'e' && nack && strings.HasPrefix(e.Text, "ATT:") {
+				c02V(out, "C02/unacknowledged-delivered", op, "a message whose transaction was not acknowledged (Commit returned an error to the sender) is attempted all the same")
+				break
+			}
 		}
 	}
 	out.Stat(fmt.Sprintf("scenario.messages.%d", len(sc.accepts)))
@@ -2356,6 +2672,7 @@ func c02Replay(out *vh.Out, op string, seen *sync.Map) {
 	ops := 0
 	a := c02Accept{id: "a1", fate: 'n'}
 	cur := []string{}
+	qSeen, qBeforeBody := false, false
 	endSeg := func() {
 		if seg == 0 {
 			sc.out0["a1"] = cur
@@ -2386,10 +2703,26 @@ func c02Replay(out *vh.Out, op string, seen *sync.Map) {
 			sc.par, _ = strconv.Atoi(t[1:])
 		case t[0] == 'L':
 			sc.loc, _ = c02ParseLoc(t)
-		case t == "C":
+		case t[0] == 'G':
+			sc.grow, _ = c02ParseGrow(t)
+		case t == "Q":
+			// Queue.Close inside the transaction: before Body (no file operation yet) or after it
+			if seg == 0 {
+				qSeen = true
+				qBeforeBody = ops == 0
+			}
+		case (t == "C" || t == "K" || t == "N") && seg == 0:
 			a.fate = 'c'
-		case t == "B":
+			if qSeen && qBeforeBody {
+				a.fate = 'K'
+			} else if qSeen {
+				a.fate = 'k'
+			}
+		case t == "B" && seg == 0:
 			a.fate = 'b'
+			if qSeen {
+				a.fate = 'j'
+			}
 		case t[0] == 'O':
 			cur = append(cur, t[1:])
 		case t == "P":
@@ -2415,6 +2748,7 @@ func c02Replay(out *vh.Out, op string, seen *sync.Map) {
 		return
 	}
 	sc.accepts = []c02Accept{a}
+	sc.big = a.n >= 100
 	c02RunScenario(out, sc, vh.NewRng(1), seen, only, recOuts, seg)
 }
 
@@ -2424,14 +2758,14 @@ func c02Replay(out *vh.Out, op string, seen *sync.Map) {
 // encoder): with all counters zero it is the image storeNewMessage leaves at acceptance (RcptErrs
 // empty, TriesCount absent), otherwise the one tryDelivery leaves after the recipients with a
 // counter failed temporarily (their last error recorded in RcptErrs).
-func c02MetaJSON(id string, to []int, tries []int, env byte) []byte {
+func c02MetaJSON(id string, to []int, tries []int, env byte, grow c02Grow) []byte {
 	from := c02Sender(env)
 	m := &QueueMetadata{MsgMeta: &module.MsgMetadata{ID: id, OriginalFrom: from, DontTraceSender: true},
 		From: from, RcptErrs: map[string]*smtp.SMTPError{},
 		FirstAttempt: time.Unix(1700000000, 0), LastAttempt: time.Unix(1700000000, 0)}
 	m.MsgMeta.SMTPOpts.UTF8 = c02EnvUTF8(env)
 	for i, r := range to {
-		addr := c02AddrE(env, r, id)
+		addr := c02AddrG(env, r, id, grow.apad)
 		m.To = append(m.To, addr)
 		if tries[i] != 0 {
 			if m.TriesCount == nil {
@@ -2439,7 +2773,7 @@ func c02MetaJSON(id string, to []int, tries []int, env byte) []byte {
 			}
 			m.TriesCount[addr] = tries[i]
 			m.TemporaryFailedRcpts = append(m.TemporaryFailedRcpts, addr)
-			m.RcptErrs[addr] = &smtp.SMTPError{Code: 451, EnhancedCode: smtp.EnhancedCode{4, 3, 0}, Message: "try later"}
+			m.RcptErrs[addr] = &smtp.SMTPError{Code: 451, EnhancedCode: smtp.EnhancedCode{4, 3, 0}, Message: "try later" + c02ErrPad(grow.epad)}
 		}
 	}
 	var b bytes.Buffer
@@ -2460,6 +2794,7 @@ type c02SynSpec struct {
 	outcomes []string
 	extDel   string
 	loc      int
+	grow     c02Grow
 	segs     []c02SynSeg // the recovery runs made on the directory, one after the other (segs[0].outcomes == outcomes)
 }
 
@@ -2478,6 +2813,11 @@ func c02ParseSyn(id string, f []string) (*c02SynSpec, bool) {
 	hp, h, b, m, nn, xx := f[0], f[1], f[2], f[3], f[4], f[5]
 	if len(h) < 2 || len(b) < 2 || len(m) < 2 {
 		return nil, false
+	}
+	for _, t := range f[6:] {
+		if g, ok := c02ParseGrow(t); ok {
+			sp.grow = g
+		}
 	}
 	if h != "H-" {
 		n, _ := strconv.Atoi(h[1:])
@@ -2508,13 +2848,26 @@ func c02ParseSyn(id string, f []string) (*c02SynSpec, bool) {
 			sp.env = p[2][0]
 		}
 		var to, tries []int
-		for _, s := range strings.Split(p[0], ".") {
-			v, _ := strconv.Atoi(s)
-			to = append(to, v)
-		}
-		for _, s := range strings.Split(p[1], ".") {
-			v, _ := strconv.Atoi(s)
-			tries = append(tries, v)
+		if strings.HasPrefix(p[0], "#") {
+			// M#<n>;<c>: recipients 1..n, every one with the stored counter c (big meta-data)
+			n, e1 := strconv.Atoi(p[0][1:])
+			c, e2 := strconv.Atoi(p[1])
+			if e1 != nil || e2 != nil || n < 1 || n > 100000 {
+				return nil, false
+			}
+			for i := 1; i <= n; i++ {
+				to = append(to, i)
+				tries = append(tries, c)
+			}
+		} else {
+			for _, s := range strings.Split(p[0], ".") {
+				v, _ := strconv.Atoi(s)
+				to = append(to, v)
+			}
+			for _, s := range strings.Split(p[1], ".") {
+				v, _ := strconv.Atoi(s)
+				tries = append(tries, v)
+			}
 		}
 		if len(tries) < len(to) {
 			return nil, false
@@ -2523,7 +2876,7 @@ func c02ParseSyn(id string, f []string) (*c02SynSpec, bool) {
 		for i, r := range to {
 			sp.tries[strconv.Itoa(r)] = tries[i]
 		}
-		sp.files[id+".meta"] = c02MetaJSON(id, to, tries, sp.env)
+		sp.files[id+".meta"] = c02MetaJSON(id, to, tries, sp.env, sp.grow)
 	}
 	if nn == "N+" {
 		sp.files[id+".meta.new"] = []byte("{\"MsgMe")
@@ -2599,8 +2952,16 @@ func c02JudgeSyn(out *vh.Out, stat string, maxTries int, sp *c02SynSpec, recs []
 			out.Stat(stat + ".fault-then-fault-free-restart")
 		}
 	}
+	if g := sp.grow.token(); g != "" {
+		toks = append([]string{g}, toks...)
+	}
 	if sp.loc > 0 {
 		toks = append([]string{c02LocToken(sp.loc)}, toks...)
+	}
+	if strings.HasPrefix(sp.f[3], "M#") {
+		out.Stat(stat + ".big.cases")
+		out.Stat(stat + ".big.meta-bytes." + c02SizeClass(len(files[id+".meta"])))
+		out.Stat(fmt.Sprintf("%s.big.%s.addr+%d.errtext+%d", stat, strings.SplitN(sp.f[3], ";", 2)[0], sp.grow.apad, sp.grow.epad))
 	}
 	out.Stat(fmt.Sprintf("%s.spool-dir-name.%d", stat, sp.loc))
 	line := fmt.Sprintf("C02 syn %d %s %s", maxTries, strings.Join(sp.f, " "), strings.Join(toks, " "))
@@ -2705,7 +3066,7 @@ func c02RunSyn(out *vh.Out, op string) {
 	if !ok {
 		return
 	}
-	rec := c02RunRecovery(c02SegIn{maxTries: maxTries, files: sp.files, outcomes: map[string][]string{sp.id: sp.outcomes}, recovery: true, extDel: sp.extDel, faults: sp.segs[0].faults, loc: sp.loc})
+	rec := c02RunRecovery(c02SegIn{maxTries: maxTries, files: sp.files, outcomes: map[string][]string{sp.id: sp.outcomes}, recovery: true, extDel: sp.extDel, faults: sp.segs[0].faults, loc: sp.loc, grow: sp.grow})
 	if rec.raced {
 		out.Stat("syn.external-delete-too-late(discarded)")
 		return
@@ -2719,7 +3080,7 @@ func c02RunSyn(out *vh.Out, op string) {
 			break
 		}
 		// the process stops (nothing is lost) and is started again on what the run before left
-		rec = c02RunRecovery(c02SegIn{maxTries: maxTries, files: rec.files, outcomes: map[string][]string{sp.id: sg.outcomes}, recovery: true, faults: sg.faults, loc: sp.loc})
+		rec = c02RunRecovery(c02SegIn{maxTries: maxTries, files: rec.files, outcomes: map[string][]string{sp.id: sg.outcomes}, recovery: true, faults: sg.faults, loc: sp.loc, grow: sp.grow})
 		recs = append(recs, rec)
 	}
 	n := c02JudgeSyn(out, "syn", maxTries, sp, recs, "")
@@ -3050,9 +3411,9 @@ func TestVerifC02(t *testing.T) {
 				}
 				r := vh.NewRng(j.seed)
 				depth := 1
-				if vh.Thorough() {
+				if vh.Thorough() && !j.sc.big {
 					depth = 2
-				} else if r.Chance(20) && len(j.sc.accepts) == 1 {
+				} else if r.Chance(20) && len(j.sc.accepts) == 1 && !j.sc.big {
 					depth = 2
 				}
 				c02RunScenario(out, j.sc, r, seen, nil, c02GenRecOuts(r, j.sc, depth), depth)
@@ -3060,6 +3421,22 @@ func TestVerifC02(t *testing.T) {
 		}()
 	}
 	r := vh.NewRng(vh.Seed() + 202)
+	// the size dimension: a handful of big cases per run (they take 0.5-3 s each and are started first, so that they
+	// run beside the many small ones), more in the thorough tier
+	rb := vh.NewRng(vh.Seed() + 909)
+	nBigRun, nBigSyn := 2, 4
+	if vh.Thorough() {
+		nBigRun, nBigSyn = 6, 16
+	}
+	if n < 100 {
+		nBigRun, nBigSyn = 1, 1
+	}
+	for i := 0; i < nBigRun; i++ {
+		jobs <- job{sc: c02GenBigScenario(rb, []int{1, 0}[i%2]), seed: rb.Next()}
+	}
+	for i := 0; i < nBigSyn; i++ {
+		jobs <- job{syn: c02GenBigSyn(rb, []int{2, 0, 1, 0}[i%4])}
+	}
 	for i := 0; i < n; i++ {
 		jobs <- job{sc: c02GenScenario(r), seed: r.Next()}
 		for k := 0; k < 3; k++ {
